@@ -145,7 +145,50 @@ fn crate_version(member: &str) -> String {
     String::new()
 }
 
+/// the first `want` constraint lines a generator writes (those that start with `[`), read from its standard output while it
+/// runs; the process is then stopped.  For board sizes whose whole output nobody can wait for.
+fn first_lists(tool: &str, args: &[String], want: usize, timeout_s: u64) -> (&'static str, Vec<String>) {
+    use std::io::BufRead;
+    use std::process::{Command, Stdio};
+    use std::sync::{Arc, Mutex, atomic::{AtomicBool, Ordering}};
+    let child = match Command::new(bin(tool)).args(args).stdin(Stdio::null()).stdout(Stdio::piped()).stderr(Stdio::null()).spawn() {
+        Ok(c) => c, Err(_) => return ("spawnfail", vec![]) };
+    let child = Arc::new(Mutex::new(child));
+    let so = child.lock().unwrap().stdout.take().unwrap();
+    let done = Arc::new(AtomicBool::new(false));
+    { let (child, done) = (Arc::clone(&child), Arc::clone(&done));
+      std::thread::spawn(move || { let t0 = std::time::Instant::now();
+          while !done.load(Ordering::SeqCst) { if t0.elapsed().as_secs() >= timeout_s { let _ = child.lock().unwrap().kill(); break; } std::thread::sleep(std::time::Duration::from_millis(20)); } }); }
+    let mut rd = std::io::BufReader::with_capacity(1 << 20, so);
+    let mut lists: Vec<String> = Vec::new();
+    let mut line: Vec<u8> = Vec::new();
+    while lists.len() < want {
+        line.clear();
+        match rd.read_until(b'\n', &mut line) { Ok(0) | Err(_) => break, Ok(_) => {} }
+        if line.first() == Some(&b'[') { lists.push(String::from_utf8_lossy(&line).trim_end().to_string()); }
+    }
+    let complete = lists.len() == want;
+    done.store(true, Ordering::SeqCst);
+    let mut c = child.lock().unwrap();
+    if complete { let _ = c.kill(); }
+    let status = c.wait().ok();
+    let class = if complete { "ok" } else { match status.and_then(|s| s.code()) { Some(0) => "ok", Some(101) => "panic", Some(_) => "err", None => "signal" } };
+    (class, lists)
+}
+
 pub fn c15(out: &mut dyn Write, tier: &str, _rng: &mut Rng, st: &mut Stats) {
+    // the largest board sizes the command line accepts: only the first lists are waited for (direction 1, the diagonals that
+    // start in the first cells of the top row)
+    for n in [65535usize, 65534, 40000] {
+        let (class, lists) = first_lists("n_queens_gen", &["-n".into(), n.to_string()], 3, 60);
+        let cells: Vec<String> = lists.iter().map(|l| {
+            let inner = l.trim_start_matches('[').split(']').next().unwrap_or("");
+            inner.split(',').filter(|t| !t.trim().is_empty()).map(|t| t.trim().trim_start_matches("v_").to_string()).collect::<Vec<_>>().join(" ")
+        }).collect();
+        let tails: Vec<String> = lists.iter().map(|l| l.split(']').nth(1).unwrap_or("").trim().to_string()).collect();
+        writeln!(out, "C15|head|{}|{}|{}|{}", n, class, cells.join(";"), tails.join(";")).unwrap();
+        st.hit(&format!("head.{}", class));
+    }
     unwritable(out, "C15", "n_queens_gen", &["-n".into(), "4".into()], &[], &OutArg::Positional, st);
     let mut ns: Vec<usize> = (1..=12).collect();
     ns.extend_from_slice(&[16, 20, 31, 32, 40, 255, 256, 300, 317]);
@@ -428,8 +471,13 @@ pub fn c17(out: &mut dyn Write, tier: &str, rng: &mut Rng, st: &mut Stats) {
     }
     cases.push((4, "1..4...........G".to_string() + &".".repeat(230) + "7.3......9"));
     if tier == "thorough" { cases.push((5, "12345".to_string())); cases.push((4, "9".repeat(256))); }
-    for (root, puzzle) in cases {
-        let (class, stdout, _) = run_tool("sudoku_gen", &["-r".into(), root.to_string()], puzzle.as_bytes(), OutArg::AfterInput, 120, st);
+    for (ci, (root, puzzle)) in cases.into_iter().enumerate() {
+        // every seventh puzzle reaches the tool through INPUT = /dev/stdin fed by a pipe (a path whose length the file system
+        // reports as 0): it is a way to name the input like any other
+        let (class, stdout, _) = if ci % 7 == 3 {
+            st.hit("input.dev-stdin-fed-by-a-pipe");
+            run_capture(&bin("sudoku_gen"), &["-r".into(), root.to_string(), "/dev/stdin".into()], puzzle.as_bytes(), 120)
+        } else { run_tool("sudoku_gen", &["-r".into(), root.to_string()], puzzle.as_bytes(), OutArg::AfterInput, 120, st) };
         // the puzzle text goes to the driver as it was given: the model removes the white space itself (Sudoku.strip)
         let stripped: &str = &puzzle;
         st.hit(&format!("root{}.exit.{}", root, class));
@@ -496,6 +544,22 @@ pub fn c18(out: &mut dyn Write, tier: &str, rng: &mut Rng, st: &mut Stats) {
                     writeln!(out, "C18|gen|{}|{}|{}|{}|{}|{}", v, e.map(|x| x.to_string()).unwrap_or_else(|| "-".into()), u as u8, complete as u8, class, edges).unwrap();
                     if class == "ok" && edges != "UNREADABLE" { writeln!(out, "C18|text|{}|{}|{}|{}|-", if dot { "dot" } else { "csv" }, u as u8, edges, hex(&stdout)).unwrap(); }
                     st.hit(&format!("gen.exit.{}", class));
+                }
+            }
+        }
+    }
+    // generation together with --colors: whether a request can be met is decided by V, E and -u alone (what is printed
+    // is then the colouring graph of a random graph, which only the exit class is looked at for)
+    for v in 0..=5usize {
+        for u in [false, true] {
+            let maxe = if u { v * v.saturating_sub(1) / 2 } else { v * v.saturating_sub(1) };
+            for e in [0usize, 1, maxe / 2, maxe / 2 + 1, maxe, maxe + 1] {
+                for k in [1usize, 2, 3] {
+                    let mut args: Vec<String> = vec![v.to_string(), e.to_string(), "--colors".into(), k.to_string()];
+                    if u { args.push("-u".into()); }
+                    let (class, _so, _) = run_tool("random_graph_gen", &args, &[], OutArg::DashO, 60, st);
+                    writeln!(out, "C18|gencolors|{}|{}|{}|{}|{}", v, e, u as u8, k, class).unwrap();
+                    st.hit(&format!("gencolors.{}", class));
                 }
             }
         }
